@@ -454,12 +454,12 @@ def main(args):
     ck = Check('C10', args)
     ck.shadow_stats = symx.load().stats
     if ck.tier == 'quick':
-        geos = ['G1', 'G2', 'G7', 'G9', 'G17', 'G18']
+        geos = ['G1', 'G2', 'G7', 'G8', 'G9', 'G16', 'G17', 'G18']      # G8, G16: non-vertical wires grounded at their second end
         parts = [('radiation_sum', (g, 1.0)) for g in geos]
         parts += [('tables', (g,)) for g in ('G1', 'G8')]
         parts += [('periodic', (g,)) for g in ('G2', 'G9')] + [('rotation_lemma', ())] + [('periodic_zenith', (g,)) for g in ('G2', 'G9')]
     else:
-        geos = ['G1', 'G2', 'G5', 'G12', 'G13', 'G17', 'G7', 'G8', 'G9', 'G10', 'G14', 'G18']
+        geos = ['G1', 'G2', 'G5', 'G12', 'G13', 'G17', 'G7', 'G8', 'G9', 'G10', 'G14', 'G15', 'G16', 'G18']
         parts = [('radiation_sum', (g, s)) for g in geos for s in (1.0, 1e3, 1e-3)]
         parts += [('tables', (g,)) for g in ('G1', 'G2', 'G8', 'G9')]
         parts += [('periodic', (g,)) for g in ('G1', 'G2', 'G5', 'G9', 'G14')] + [('rotation_lemma', ())] + [('periodic_zenith', (g,)) for g in ('G1', 'G2', 'G8', 'G9', 'G14')]
